@@ -22,7 +22,7 @@ def run_program(inst, mode):
     src0 = inst["src"]
     nconst = wasmfam.count_constants(src0)
     src = wasmfam.instantiate(src0, nconst)
-    res["key"] = src0
+    res["key"] = src0 + "@" + inst.get("entry", "f")
     res["funcs"] = FUNCS
     counters = dict(programs=1, refused=0, emitted=0, paths_valid=0, paths_refused=0, feasibility_queries=0, value_queries=0)
     res["sample"] = dict(name=inst.get("name"), source=src[:300])
